@@ -14,6 +14,8 @@ import GoZero.C13.ProofsMisc
 import GoZero.C13.ProofsExclMon
 import GoZero.C13.ProofsConc
 import GoZero.C13.ProofsJoin
+import GoZero.C13.ProofsPub
+import GoZero.C13.ProofsBuild
 namespace GoZero.C13
 open Spec
 
@@ -241,6 +243,128 @@ theorem late_join_atomic (acts : List ConcJoin.Act) (l : Nat) :
   intro s
   exact (ConcJoin.inv_exec acts _ ConcJoin.inv_init).sync l
 
+/-! ### Publisher → etcd → subscriber (core/discov/publisher.go: register / revoke) -/
+
+/-- **Which key a publisher puts.**  `register` with the lease etcd granted: the full key is the service key with
+the id suffix `p.id` when an id was given (`WithId`, `p.id > 0`), else the lease; the value is put under that key,
+attached to that lease, every other key of the store is untouched, and the watchers are told exactly this PUT. -/
+theorem publisher_registers_key_with_id_suffix (p : Pub) (lease : Nat) (s : Store) :
+    let p' := p.register lease
+    (p'.fullKey = if p.id > 0 then p.id else lease) ∧ p'.lease = lease ∧ p'.value = p.value ∧ p'.id = p.id
+    ∧ (storePut s p').get p'.fullKey = some (p.value, lease)
+    ∧ (∀ k, k ≠ p'.fullKey → (storePut s p').get k = s.get k)
+    ∧ registerEvents p' = [.put p'.fullKey p.value] := by
+  refine ⟨rfl, rfl, rfl, rfl, ?_, fun k hk => ?_, rfl⟩
+  · simp [storePut, Map.get_set, Pub.register]
+  · simp [storePut, Map.get_set, hk]
+
+/-- **A registration is seen** (call site → etcd → handleWatchEvents → container → Values()): after any history of
+registry events, once a publisher has registered, an ordinary subscriber's `Values()` contains the publisher's
+value, and the registry holds it under the publisher's full key. -/
+theorem published_value_is_seen (evs : List Ev) (hv : ValidHist Fix.fixed [] evs) (p : Pub) (lease : Nat) :
+    let p' := p.register lease
+    p.value ∈ view (run Fix.fixed false (evs ++ registerEvents p')).cont
+    ∧ Reg.run (evs ++ registerEvents p') p'.fullKey = some p.value := by
+  intro p'
+  have hv' : ValidHist Fix.fixed [] (evs ++ registerEvents p') :=
+    (validHist_append _ evs _ []).mpr ⟨hv, trivial⟩
+  have hr : Reg.run (evs ++ registerEvents p') p'.fullKey = some p.value := by
+    simp [Reg.run, registerEvents, List.foldl_append, Reg.apply, Reg.put, p', Pub.register]
+  exact ⟨((view_equals_registry _ hv').1 p.value).mpr ⟨_, hr⟩, hr⟩
+
+/-- **Revocation** (`Pause`, `Stop`, a closed keep-alive channel): etcd deletes exactly the keys attached to the
+lease, one DELETE event each, and keeps every other key. -/
+theorem revoke_deletes_exactly_the_lease (s : Store) (lease : Nat) :
+    (∀ e, e ∈ storeRevoke s lease ↔ e ∈ s ∧ e.2.2 ≠ lease)
+    ∧ (∀ k, k ∈ revokedKeys s lease ↔ ∃ v, (k, (v, lease)) ∈ s)
+    ∧ revokeEvents s lease = (revokedKeys s lease).map .del :=
+  ⟨mem_storeRevoke s lease, mem_revokedKeys s lease, rfl⟩
+
+/-- **A revocation is seen**: after the DELETE events of the revoked keys an ordinary subscriber shows a value
+exactly when a key that was not revoked still carries it (so the value of a publisher that stopped disappears
+unless another live publisher registered the same value). -/
+theorem revoked_value_disappears (evs : List Ev) (hv : ValidHist Fix.fixed [] evs) (ks : List Nat) (v : Nat) :
+    v ∈ view (run Fix.fixed false (evs ++ ks.map .del)).cont ↔ ∃ k, k ∉ ks ∧ Reg.run evs k = some v := by
+  rw [(view_equals_registry _ ((validHist_append_dels _ evs ks []).mpr hv)).1 v]
+  unfold Reg.Shows
+  constructor
+  · rintro ⟨k, hk⟩
+    rw [regrun_append_dels] at hk
+    by_cases hm : k ∈ ks
+    · simp [hm] at hk
+    · exact ⟨k, hm, by simpa [hm] using hk⟩
+  · rintro ⟨k, hm, hk⟩
+    exact ⟨k, by rw [regrun_append_dels]; simpa [hm] using hk⟩
+
+/-
+Full statement (not proven this round; the harness checks it on the real code as `view-differs-from-live-publishers`):
+for every well-formed history of publisher operations (KeepAlive / Pause / Resume / Stop / keep-alive channel closed)
+over any number of publishers with pairwise distinct fixed ids that differ from every lease, and leases that etcd
+never grants twice, the store is exactly {fullKey p ↦ value p | p registered}, and an ordinary subscriber's Values()
+is exactly the set of values of the registered publishers.  Proven: the per-operation facts above and their
+composition with `view_equals_registry` for one registration / one revocation after an arbitrary history
+(`publisher_cycle_partial`).
+-/
+theorem publisher_cycle_partial (evs : List Ev) (hv : ValidHist Fix.fixed [] evs) (p : Pub) (lease : Nat)
+    (hother : ∀ k, Reg.run evs k ≠ some p.value) :
+    let p' := p.register lease
+    p.value ∈ view (run Fix.fixed false (evs ++ registerEvents p')).cont
+    ∧ p.value ∉ view (run Fix.fixed false ((evs ++ registerEvents p') ++ [p'.fullKey].map .del)).cont := by
+  intro p'
+  refine ⟨(published_value_is_seen evs hv p lease).1, fun h => ?_⟩
+  have hv' : ValidHist Fix.fixed [] (evs ++ registerEvents p') := (validHist_append _ evs _ []).mpr ⟨hv, trivial⟩
+  obtain ⟨k, hk, hr⟩ := (revoked_value_disappears _ hv' [p'.fullKey] p.value).mp h
+  have hne : k ≠ p'.fullKey := by simpa using hk
+  have : Reg.run (evs ++ registerEvents p') k = Reg.run evs k := by
+    simp [Reg.run, registerEvents, List.foldl_append, Reg.apply, Reg.put, hne]
+  rw [this] at hr
+  exact hother k hr
+
+/-! ### Resolver: Build against the watch goroutine (BuildConc.lean) -/
+
+/-- **The resolver publishes the subscriber's addresses at quiescence** — for the code's order (AddListener, then the
+first update()) with serialised update() calls, under every schedule of Build's steps, event deliveries and listener
+runs: once Build has returned and every delivered change was followed by the listener's update(), the last
+`UpdateState` carried exactly what `Values()` returns. -/
+theorem build_publishes_view_at_quiescence (v0 : List Nat) (acts : List BuildConc.Act) :
+    let s := BuildConc.exec .listenerFirst true { view := v0 } acts
+    BuildConc.Quiescent s → s.pub = some s.view := by
+  intro s hq
+  have hi : BuildConc.Inv s := BuildConc.inv_exec acts _ ⟨by simp, by simp, by simp, by simp⟩
+  rcases hi.2.2.1 hq.1 with h | h
+  · exact h
+  · rw [hq.2] at h; cases h
+
+/-- what the resolver published is what the registry holds (composition with `view_equals_registry`): if the
+subscriber's `Values()` is the value list of the history's registry, the last UpdateState at quiescence carries it,
+and `subset` (≤ 32 values) keeps all of it (`resolver_publishes_all_when_small`). -/
+theorem build_publishes_registry_at_quiescence (evs : List Ev) (hv : ValidHist Fix.fixed [] evs) (v0 : List Nat)
+    (acts : List BuildConc.Act) :
+    let s := BuildConc.exec .listenerFirst true { view := v0 } acts
+    BuildConc.Quiescent s → s.view = view (run Fix.fixed false evs).cont →
+      ∃ p, s.pub = some p ∧ ∀ v, v ∈ p ↔ (Reg.run evs).Shows v := by
+  intro s hq hview
+  refine ⟨s.view, build_publishes_view_at_quiescence v0 acts hq, fun v => ?_⟩
+  rw [hview]
+  exact (view_equals_registry evs hv).1 v
+
+/-- **Witness (order of the seeded change C13-5: first update(), then AddListener).**  An event applied between
+Build's UpdateState and AddListener reaches no listener: at quiescence the resolver still publishes the empty
+list while Values() is [7]. -/
+theorem update_before_listener_loses_event :
+    let s := BuildConc.exec .updateFirst true {} [.build, .build, .apply [7], .build]
+    BuildConc.Quiescent s ∧ s.pub = some [] ∧ s.view = [7] := by decide
+
+/-- **Defect witness (the code as it is: update() is not serialised).**  Build's update() has read `Values()` = [];
+the watch goroutine applies an event ([7]), runs the listener — update() reads [7] and publishes it — and only then
+Build's `UpdateState([])` is entered: at quiescence the resolver publishes [] while Values() is [7], until the next
+registry event.  With serialised update() calls the same schedule ends with [7] published. -/
+theorem unserialized_update_publishes_stale :
+    (let s := BuildConc.exec .listenerFirst false {} [.build, .build, .apply [7], .wUpdate, .build]
+     BuildConc.Quiescent s ∧ s.pub = some [] ∧ s.view = [7])
+    ∧ (let s := BuildConc.exec .listenerFirst true {} [.build, .build, .apply [7], .wUpdate, .build, .wUpdate]
+       BuildConc.Quiescent s ∧ s.pub = some [7] ∧ s.view = [7]) := by decide
+
 /-! ### The defect of the pinned commit (machine-checked witnesses; replayed on the real code) -/
 
 /-- `k` registered with `v1`, then updated in place to `v2`: the pinned `addKv` still shows `v1`. -/
@@ -344,5 +468,22 @@ example : ValidJoin (run Fix.fixed false sampleHist).values [(3, 10), (1, 30)] :
   exact Or.comm
 
 example : canonSet (view (runLate false [(3, 10), (1, 30)] [.put 3 30, .del 1])) = [30] := by decide
+
+/-- publisher, non-vacuity: a publisher without id (lease 105) and one with id 6 register after `sampleHist`; the first
+is paused (its lease is revoked) -/
+example : (({ id := 0, value := 40 } : Pub).register 105).fullKey = 105
+    ∧ (({ id := 6, value := 40 } : Pub).register 105).fullKey = 6 := by decide
+
+example : canonSet (view (run Fix.fixed false (sampleHist ++ registerEvents (({ id := 0, value := 40 } : Pub).register 105))).cont)
+    = [10, 30, 40] := by decide
+
+example : revokedKeys [(6, (40, 104)), (105, (40, 105)), (8, (20, 106))] 105 = [105]
+    ∧ storeRevoke [(6, (40, 104)), (105, (40, 105)), (8, (20, 106))] 105 = [(6, (40, 104)), (8, (20, 106))] := by decide
+
+example : Reg.run sampleHist (({ id := 0, value := 40 } : Pub).register 105).fullKey = none := by decide
+
+/-- Build, non-vacuity: a quiescent run with two events, one of them during Build's update() -/
+example : let s := BuildConc.exec .listenerFirst true { view := [1] } [.apply [1, 2], .build, .build, .apply [2], .build, .wUpdate]
+    BuildConc.Quiescent s ∧ s.pub = some [2] := by decide
 
 end GoZero.C13
